@@ -285,7 +285,55 @@ def check_qttmatrix(c):
     return res
 
 
-CHECKERS = {'svd': check_svd, 'matrix': check_matrix, 'qttmatrix': check_qttmatrix}
+def check_forms(c):
+    """Equivalent argument forms give the same factorisation: integer-typed / float32 / Fortran-ordered / strided arrays,
+    NumPy scalars for e and r."""
+    res = Res()
+    seed = c.get('seed', 0)
+    A = np.round(_arr(dict(c, kind='tt', mag=1.0), seed) * 8)          # integer-valued float array
+    nrm = float(np.linalg.norm(A))
+    for e, r in ((1e-10, 1e12), (0.3 * nrm, 1e12), (1e-10, 2)):
+        res.ev()
+        case = dict(c, e=e, r=r)
+        base = teneva.svd(A, e, r)
+        forms = {'int64': A.astype(np.int64), 'int32': A.astype(np.int32), 'fortran': np.asfortranarray(A), 'float32': A.astype(np.float32)}
+        big = np.zeros(tuple(2 * s for s in A.shape))
+        view = big[tuple(slice(0, 2 * s, 2) for s in A.shape)]
+        view[...] = A
+        forms['strided'] = view
+        for nm, X in forms.items():
+            if nm == 'float32' and e < 1e-4 * nrm:
+                continue          # single-precision noise is above such a threshold: the ranks legitimately differ
+            with warnings.catch_warnings():
+                warnings.simplefilter('ignore')
+                try:
+                    Z = teneva.svd(X, e, r)
+                except Exception as ex:
+                    res.fail('forms.raised', dict(case, form=nm), 'svd raised %s for a %s array' % (type(ex).__name__, nm), ['forms'])
+                    continue
+            ok = ref.wellformed(Z, list(A.shape)) is None and [G.shape for G in Z] == [G.shape for G in base]
+            tol = (1e-5 if nm == 'float32' else 1e-12) * max(nrm, 1e-300)
+            res.check(ok and float(np.linalg.norm(ref.dense(Z) - ref.dense(base))) <= tol, 'forms.svd', dict(case, form=nm),
+                      lambda: 'svd of the %s form differs from the float64 C-ordered one' % nm, ['forms'])
+        with warnings.catch_warnings():
+            warnings.simplefilter('ignore')
+            Z2 = teneva.svd(A, np.float64(e), np.int64(min(r, 10 ** 9)) if r < 1e11 else np.float64(r))
+        res.check(ref.core_bytes(Z2) == ref.core_bytes(base), 'forms.numpy_scalars', case, 'NumPy scalars for e / r change the result', ['forms'])
+        if A.ndim == 2:
+            M = A
+            for fn in ('matrix_svd', 'matrix_skeleton'):
+                U0, V0 = getattr(teneva, fn)(M, e, r)
+                for nm, X in (('int64', M.astype(np.int64)), ('fortran', np.asfortranarray(M)), ('strided', view)):
+                    with warnings.catch_warnings():
+                        warnings.simplefilter('ignore')
+                        U1, V1 = getattr(teneva, fn)(X, e, r)
+                    res.check(U1.shape == U0.shape and np.abs(U1 @ V1 - U0 @ V0).max() <= 1e-10 * max(nrm, 1e-300), 'forms.' + fn, dict(case, form=nm),
+                              lambda: '%s of the %s form differs' % (fn, nm), ['forms'])
+    res.nt(('forms', tuple(c['shape']), tuple(c['ranks'])))
+    return res
+
+
+CHECKERS = {'svd': check_svd, 'matrix': check_matrix, 'qttmatrix': check_qttmatrix, 'forms': check_forms}
 
 
 def _arrays(tier, seed):
@@ -349,6 +397,8 @@ def strata(tier, seed):
     ms = _matrices(tier, seed)
     yield Stratum('matrix-factorisations', ms, 'matrix', size=len(ms), chunk=4,
                   bounds={'m,n': '1..%d' % (4 if tier == 'quick' else 5), 'give_to': ['m', 'l', 'r'], 'rel': [0, 1]})
+    fm = [dict(shape=sh, ranks=rk, seed=seed) for sh, rk in (([4, 5], [1, 3, 1]), ([3, 4, 3], [1, 2, 3, 1]), ([2, 3, 2, 3], [1, 2, 3, 2, 1]), ([5, 1, 4], [1, 2, 2, 1]))]
+    yield Stratum('argument forms', fm, 'forms', size=len(fm), chunk=1, bounds={'forms': ['int64', 'int32', 'float32', 'fortran', 'strided', 'numpy scalars']})
     qm = _qm(tier, seed)
     yield Stratum('qtt-matrix-interleaving', qm, 'qttmatrix', size=len(qm), chunk=16,
                   bounds={'q': [1, 2, 3], 'unit matrices': 'all 4^q'})
